@@ -20,7 +20,7 @@ impl Property for C02 {
         "C02"
     }
     fn rule(&self) -> String {
-        "programs of the core fragment (half of them in balanced form: last output = inputs + mint - burn - other outputs - fees) with integer arguments from a boundary distribution {0, +-1, 23/24, 255/256, 2^16, +-2^31, 2^32, +-2^63, +-2^64, i128 extremes, each +-2} and UTxOs that may hold less than the template spends; oracle: if the pipeline returns Ok then every numeric field of the exact (BigInt) denotation fits its ledger field and equals the decoded number, and for balanced templates consumed = produced + fee per asset class on the decoded transaction; a world in which a list index falls outside 0..len (negative, >= len, beyond 64 bits) has no denotation and has to be refused (an Ok there is `silent:index-out-of-range`). Non-trivial: the denotation is defined and either out of range or has >= 2 numeric fields; distinct = distinct (source, args).".into()
+        "programs of the core fragment (half of them in balanced form: last output = inputs + mint - burn - other outputs - fees) with integer arguments from a boundary distribution {0, +-1, 23/24, 255/256, 2^16, +-2^31, 2^32, +-2^63, +-2^64, i128 extremes, each +-2} and UTxOs that may hold less than the template spends; oracle: if the pipeline returns Ok then every numeric field of the exact (BigInt) denotation fits its ledger field and equals the decoded number, and for balanced templates consumed = produced + fee per asset class on the decoded transaction; a world in which a list index falls outside 0..len (negative, >= len, beyond 64 bits) has no denotation and has to be refused (an Ok there is `silent:index-out-of-range`); likewise a world that gives two withdrawal blocks one reward account (`silent:withdrawal-dropped`: the ledger map keeps one amount per account). Non-trivial: the denotation is defined and either out of range or has >= 2 numeric fields; distinct = distinct (source, args).".into()
     }
     fn assumptions(&self) -> Vec<String> {
         vec![
@@ -35,11 +35,12 @@ impl Property for C02 {
         }
     }
     fn required_features(&self, _tier: Tier) -> Vec<String> {
-        ["outcome/ok-in-range", "outcome/err-out-of-range", "balanced/checked", "outcome/err-in-range", "index/out-of-range-refused"].iter().map(|s| s.to_string()).collect()
+        ["outcome/ok-in-range", "outcome/err-out-of-range", "balanced/checked", "outcome/err-in-range", "index/out-of-range-refused", "withdrawal/shared-account-refused"].iter().map(|s| s.to_string()).collect()
     }
     fn run_case(&self, ctx: &mut Ctx, phase: &str, idx: u64, rng: &mut Rng) {
         let balanced = idx % 2 == 0;
-        let cfg = Cfg { boundary_ints: true, balanced, cardano_pct: if balanced { 0 } else { 30 }, ..Default::default() };
+        // one case in eight: several withdrawal blocks per tx (stake parties of their own), whose accounts a world may merge
+        let cfg = Cfg { boundary_ints: true, balanced, cardano_pct: if balanced { 0 } else { 30 }, redeemer_focus: idx % 8 == 7, ..Default::default() };
         let g = build::generate(rng, &cfg);
         let src = print_program(&g.prog, Layout::plain());
         for (ti, txd) in g.prog.txs.iter().enumerate() {
@@ -58,6 +59,22 @@ impl Property for C02 {
                         ctx.count("world/undefined-denotation");
                         // an index outside the list has no value: the pipeline has to fail, not to pick an
                         // element after truncating the index (a quantity "truncated to 64 bits")
+                        if why == "withdrawals share a reward account" {
+                            ctx.eval();
+                            ctx.count("withdrawal/shared-account-world");
+                            match back_assigned(&tir, &w, &PP::default()) {
+                                Err(e) if e.is_panic() => ctx.violation(
+                                    format!("panic-instead-of-error:{}", e.class()),
+                                    json!({"source": src, "tx": txd.name, "world": world_json(&w), "panic": e.text(), "phase": phase}),
+                                ),
+                                Err(_) => ctx.count("withdrawal/shared-account-refused"),
+                                Ok(c) => ctx.violation(
+                                    "silent:withdrawal-dropped",
+                                    json!({"source": src, "tx": txd.name, "world": world_json(&w), "payload": hex::encode(&c.payload), "phase": phase,
+                                           "note": "two withdrawal blocks name one reward account; the ledger map holds one amount per account, so one of the two amounts is dropped"}),
+                                ),
+                            }
+                        }
                         if why == "index out of range" {
                             ctx.eval();
                             ctx.count("index/out-of-range-world");
